@@ -1,6 +1,7 @@
 #!/bin/sh
 # tools/mut.sh <property> <file-relative-to-repo> <sed-expression> [extra check args]
 # apply a one-line mutation to a scratch source copy of /repo and run the check against it (never touches /repo)
+[ "$MREPO_LOCKED" = 1 ] || { export MREPO_LOCKED=1; exec flock /tmp/mrepo.lock "$0" "$@"; }
 set -e
 P=$1; F=$2; E=$3; shift 3
 rm -rf /tmp/mrepo; rsync -a --exclude target --exclude .git /repo/ /tmp/mrepo/
